@@ -6,6 +6,7 @@ import (
 	"fmt"
 	"io"
 	"os"
+	"os/exec"
 	"path/filepath"
 	"sort"
 	"strings"
@@ -40,9 +41,10 @@ type Source struct {
 
 // C17Case is a generated tree + filter table + source list.
 type C17Case struct {
-	Dirs    [][]Entry    `json:"dirs"`
-	Table   []FilterSpec `json:"table"` // applied in order on top of the default table
-	Sources []Source     `json:"sources"`
+	Dirs      [][]Entry    `json:"dirs"`
+	Table     []FilterSpec `json:"table"` // applied in order on top of the default table
+	Sources   []Source     `json:"sources"`
+	UseBinary bool         `json:"use_binary"` // also compare with curlrevshell -print-ctrl-i
 }
 
 func markerFilter(k int) shellfuncsfile.Filter {
@@ -322,6 +324,36 @@ func runC17(t testing.TB, c C17Case) (key, what string, stats map[string]int) {
 	if err2 != nil || !bytes.Equal(got, got2) {
 		return "nondeterministic", fmt.Sprintf("second call differs (err=%v)", err2), stats
 	}
+	// differential through the real program: curlrevshell -print-ctrl-i prints
+	// the payload followed by the list function (default table, one source)
+	if bin := os.Getenv("VERIF_BIN"); bin != "" && len(c.Table) == 0 && len(srcs) == 1 && c.UseBinary {
+		exact := true
+		var want []byte
+		for _, p := range parts {
+			exact = exact && !p.emptyOK
+			want = append(want, p.data...)
+		}
+		if exact {
+			lf, err := shellfuncsfile.GenFuncList(string(want))
+			if err == nil {
+				want = append(append(want, '\n'), lf...)
+				cmd := exec.Command(bin, "-print-ctrl-i", "-ctrl-i", srcs[0])
+				cmd.Env = []string{"PATH=/usr/bin:/bin", "HOME=" + root}
+				out, err := cmd.Output()
+				if err != nil {
+					return "print-ctrl-i-failed", fmt.Sprintf("curlrevshell -print-ctrl-i -ctrl-i %s failed: %v", srcs[0], err), stats
+				}
+				if !bytes.Equal(out, want) {
+					d := 0
+					for d < len(out) && d < len(want) && out[d] == want[d] {
+						d++
+					}
+					return "print-ctrl-i-differs", fmt.Sprintf("curlrevshell -print-ctrl-i output differs from the reference payload + list function at byte %d: got %q want %q", d, clip(out, d), clip(want, d)), stats
+				}
+				stats["print-ctrl-i-differential"]++
+			}
+		}
+	}
 	return "", "", stats
 }
 
@@ -448,6 +480,7 @@ func genC17() *rapid.Generator[C17Case] {
 			}
 			c.Sources = append(c.Sources, s)
 		}
+		c.UseBinary = rapid.IntRange(0, 3).Draw(t, "usebinary") == 0
 		return c
 	})
 }
